@@ -6,6 +6,21 @@ from pw_verif.program import Destroyed, Inapplicable, Machine, Tagged, TooBig
 from pw_verif.snap import Malformed
 
 
+HISTORY_NOTE = (
+    " Histories: every step is judged from the library's own state before the call. When a step fails the oracle of a "
+    "DIFFERENT property and the ideal result of that call is known, the program goes on with that ideal result as the "
+    "reference state of the following steps (at most four times per program), so that this property's oracles are "
+    "evaluated against the state the history determines; verdicts reached that way say so. Operation objects are "
+    "re-used: about a quarter of the operation steps that repeat the operand kinds of an earlier step apply the very "
+    "object that step built (composite ones also to the same operands in another order)."
+)
+SURVIVOR_NOTE = (
+    " A further family ('survivors'): a composite product space of 3-5 members (equal dimensions half of the time) "
+    "loses members through measurements / destructive POVMs on members stored in front of others, and the members "
+    "that stay are resized, operated on, measured, sent through channels, traced out or reordered straight afterwards."
+)
+
+
 def worker_init():
     ref.selftest()
 
